@@ -195,7 +195,7 @@ def body_cov(case, ctx):
             ctx.cls("node-on-singular-end")
             continue
         node_tol[i] = RT * max(1.0, abs(float(fv))) + (CS * EPS * float(dx) * abs(float(f1)) if f1 is not None else 0.0)
-        _track(ctx, abs(P[i] - float(fv)) / node_tol[i], "nodes")
+        _track(ctx, abs(P[i] - float(fv)), node_tol[i], "nodes")
         if not abs(P[i] - float(fv)) <= node_tol[i]:
             ctx.fail(f"{name}.nodes", f"{head}: node {i} x={x[i]!r} -> {P[i]!r}, reference {float(fv)!r} (tol {node_tol[i]:.1e})")
         if rec["singular"]:
@@ -215,7 +215,7 @@ def body_cov(case, ctx):
             rel += CS * EPS * float(abs(fv) + rf.py) * abs(float(f2)) / jac
         w_ref[i] = w[i] * jac
         w_tol[i] = abs(w[i]) * rel + FLOOR * max(abs(w[i]), 1.0)
-        _track(ctx, min(abs(W[i] - w_ref[i]), abs(W[i] + w_ref[i]) if not rf.increasing else np.inf) / w_tol[i], "weights")
+        _track(ctx, min(abs(W[i] - w_ref[i]), abs(W[i] + w_ref[i]) if not rf.increasing else np.inf), w_tol[i], "weights")
         if abs(W[i] - w_ref[i]) <= w_tol[i]:
             continue
         msg = f"{head}: weight {i} at x={x[i]!r} is {W[i]!r}, reference w*|r'| = {w[i]!r}*{jac!r} = {w_ref[i]!r} (tol {w_tol[i]:.1e})"
@@ -244,7 +244,7 @@ def body_cov(case, ctx):
         tol = float(np.sum(np.abs(w_ref) * lips(rlo, rhi) * node_tol + gv * w_tol) + CS * EPS * np.sum(gv * np.abs(w_ref)))
         with np.errstate(all="ignore"):
             got = float(new.integrate(g_np(P)))
-        _track(ctx, min(abs(got - s_ref), abs(got + s_ref) if signed else np.inf) / tol, "sum")
+        _track(ctx, min(abs(got - s_ref), abs(got + s_ref) if signed else np.inf), tol, "sum")
         if abs(got - s_ref) <= tol:
             pass
         elif signed and abs(got + s_ref) <= tol:
@@ -287,8 +287,9 @@ def body_cov(case, ctx):
             ctx.fail(f"{name}.domain-contains-nodes", f"{head}: domain {(g0, g1)!r} does not contain nodes in [{np.min(P)!r}, {np.max(P)!r}]")
 
 
-def _track(ctx, ratio, what):
+def _track(ctx, err, tol, what):
     """Remember the worst error/tolerance ratio of the case (read by the calibration script only)."""
+    ratio = float(err) / float(tol) if tol > 0 else (0.0 if err == 0 else np.inf)
     if np.isfinite(ratio) and ratio > ctx.info.get("worst_ratio", 0.0):
         ctx.info["worst_ratio"], ctx.info["worst_what"] = float(ratio), what
 
